@@ -21,6 +21,7 @@ a wall-clock bound; any panic or time-out is a violation with the document as re
 namespace Props.C16
 open TaskModel.Decode
 
+set_option maxRecDepth 4096 in
 /-- **Every panic-capable site is accounted for.** -/
 theorem all_panic_sites_discharged : TaskModel.Gen.PanicSites.sites.all isDischarged = true := by decide
 
